@@ -4,7 +4,10 @@ E1 bounded-exhaustive enumeration over unit-system pairs/triples x dimension vec
 the real UnitValue.convert / UnitArray.convert, against exact rational arithmetic (mc/ref/si.py).
 """
 import itertools
+import math
 from fractions import Fraction as F
+
+import numpy as np
 
 from mc import core, pool, uq
 from mc.ref import si
@@ -15,6 +18,49 @@ from strengths.units import UnitValue, UnitArray, Units, UnitsSystem  # noqa: E4
 TOL = 1e-12
 VALS = [3.7, -0.125]
 FORMS = ("UnitsSystem", "dict", "partial-dict", "Units", "UnitValue", "str")
+
+# carriers of the numbers of an array quantity: the same numbers handed over in every "array of numbers" form
+CARRIER_FLOATS = [0.1, 0.2, 0.3, 1234.567]          # not dyadic: a product rounded to a narrow float type is visibly wrong
+CARRIER_INTS = [3, 41, 200]                         # integral, fits uint8
+CARRIERS = ("list", "tuple", "float64", "float32", "float16", "int64", "int32", "uint8", "intlist")
+ROUTES = ("ctor", "value=", "set_value")
+SETAT_VALS = [7.5, 3]                               # a float and a Python int as the value of the UnitValue given to set_at
+
+
+def _carrier(name):
+    """(the carrier object, [the double value of each item it holds])."""
+    if name == "list":
+        c = list(CARRIER_FLOATS)
+    elif name == "tuple":
+        c = tuple(CARRIER_FLOATS)
+    elif name in ("float64", "float32", "float16"):
+        c = np.array(CARRIER_FLOATS, dtype=getattr(np, name))
+    elif name in ("int64", "int32", "uint8"):
+        c = np.array(CARRIER_INTS, dtype=getattr(np, name))
+    elif name == "intlist":
+        c = list(CARRIER_INTS)
+    else:
+        raise ValueError(name)
+    return c, [float(x) for x in c]
+
+
+def _cmp_values(tag, got_vals, exact, out, what):
+    """got_vals (numbers) against exact (Fractions), relative TOL; one violation at most."""
+    if len(got_vals) != len(exact):
+        out.append(("C06:%s:length-changed" % tag, "%s: %d items -> %d" % (what, len(exact), len(got_vals))))
+        return False
+    for pos, (g, e) in enumerate(zip(got_vals, exact)):
+        if isinstance(g, float) and not math.isfinite(g):
+            err = float("inf")
+        elif e == 0:
+            err = 0.0 if g == 0 else float("inf")
+        else:
+            err = float(abs(F(g) / e - 1))
+        if not err <= TOL:
+            out.append(("C06:%s:value" % tag, "%s: item %d is %.17g, value x exact factor is %.17g (relative %.3e > 1e-12)"
+                        % (what, pos, si.to_float(g) if isinstance(g, F) else g, si.to_float(e), err)))
+            return False
+    return True
 
 
 def _target(form, dst, dim):
@@ -77,6 +123,11 @@ def _check_result(tag, q0, got, dst, dim, out, case, exact_identity=False):
 
 def check_case(case):
     """One case; returns [(key, what)]."""
+    return _check(case, [])
+
+
+def _check(case, notes):
+    """One case; returns [(key, what)]; names of counters to bump are appended to notes."""
     out = []
     sub = case["sub"]
     try:
@@ -184,6 +235,106 @@ def check_case(case):
                     out.append(("C06:family-product:si-meaning", "1 %s = %.17g SI but 1 %s = %.17g SI" % (case["text"], float(x / F(VALS[0])), case["equals"], float(y / F(VALS[0])))))
                 got = a.convert(b.units)
                 _check_result("family-product:convert", a, got, uq.sys_of(b.units), uq.dim_of(b.units), out, case)
+        elif sub == "carrier":
+            src, dst, dim = tuple(case["src"]), tuple(case["dst"]), tuple(case["dim"])
+            car, route = case["carrier"], case["route"]
+            c, stored = _carrier(car)
+            units = uq.mk_units(src, dim)
+            try:
+                if route == "ctor":
+                    q = UnitArray(c, units)
+                elif route == "value=":
+                    q = UnitArray([0.0] * len(stored), units)
+                    q.value = c
+                elif route == "set_value":
+                    q = UnitArray([0.0] * len(stored), units)
+                    q.set_value(c)
+                else:
+                    raise ValueError(route)
+            except Exception:
+                notes.append("carrier_rejected:%s:%s" % (car, route))      # a refused carrier is counted, not reported
+                return out
+            notes.append("carrier_accepted")
+            tag = "carrier:%s:%s" % (car, route)
+            if uq.sys_of(q.units) != src or uq.dim_of(q.units) != dim:
+                out.append(("C06:%s:units-changed" % tag, "array built in %s %s has units %s %s" % (src, dim, uq.sys_of(q.units), uq.dim_of(q.units))))
+                return out
+            sc_src = si.si_scale(src, dim)
+            if not _cmp_values(tag + ":stored", [F(float(x)) * sc_src for x in q.value], [F(v) * sc_src for v in stored], out,
+                               "array built from a %s carrier" % car):
+                return out
+            f = si.factor(src, dst, dim)
+            got = q.convert(uq.mk_sys(dst))
+            if type(got) is not UnitArray:
+                out.append(("C06:%s:result-type" % tag, "convert returned %s" % type(got).__name__))
+                return out
+            if uq.dim_of(got.units) != dim:
+                out.append(("C06:%s:dimension-changed" % tag, "dimension %s became %s" % (dim, uq.dim_of(got.units))))
+                return out
+            if any(dim[i] != 0 and uq.sys_of(got.units)[i] != dst[i] for i in range(3)):
+                out.append(("C06:%s:wrong-target-unit" % tag, "result is in %s, requested %s" % (uq.sys_of(got.units), dst)))
+                return out
+            # expressed in the units it reports, the result is (the double value of each item handed over) x exact factor
+            sc_got = si.si_scale(uq.sys_of(got.units), dim)
+            if not _cmp_values(tag + ":convert", [F(float(x)) * sc_got if math.isfinite(float(x)) else float(x) for x in got.value],
+                               [F(v) * sc_src for v in stored], out,
+                               "%s carrier %r in %s converted to %s (SI values)" % (car, stored, src, dst)):
+                return out
+            if src == dst and [float(x) for x in got.value] != stored:
+                out.append(("C06:%s:identity-not-exact" % tag, "%r -> %r" % (stored, [float(x) for x in got.value])))
+                return out
+            back = got.convert(uq.mk_sys(src))
+            sc_back = si.si_scale(uq.sys_of(back.units), dim)
+            _cmp_values(tag + ":there-and-back", [F(float(x)) * sc_back if math.isfinite(float(x)) else float(x) for x in back.value],
+                        [F(v) * sc_src for v in stored], out, "%s carrier %r in %s converted to %s and back (SI values)" % (car, stored, src, dst))
+        elif sub == "set_at":
+            # src = units system of the UnitValue given, dst = units system of the array
+            src, dst, dim, i = tuple(case["src"]), tuple(case["dst"]), tuple(case["dim"]), case["i"]
+            v = SETAT_VALS[case["v"]]
+            base = [3.7, -0.125, 41.0]
+            q = uq.mk_ua(base, dst, dim)
+            item = uq.mk_uv(v, src, dim)
+            q.set_at(i, item)
+            if uq.sys_of(q.units) != dst or uq.dim_of(q.units) != dim:
+                out.append(("C06:set_at:array-units-changed", "array in %s %s has units %s %s after set_at" % (dst, dim, uq.sys_of(q.units), uq.dim_of(q.units))))
+                return out
+            now = [float(x) for x in q.value]
+            if len(now) != len(base):
+                out.append(("C06:set_at:length-changed", "%d items -> %d" % (len(base), len(now))))
+                return out
+            if [x for j, x in enumerate(now) if j != i] != [x for j, x in enumerate(base) if j != i]:
+                out.append(("C06:set_at:other-item-changed", "set_at(%d, ...) on %r left %r" % (i, base, now)))
+                return out
+            exact = F(v) * si.factor(src, dst, dim)
+            if not _cmp_values("set_at", [now[i]], [exact], out,
+                               "set_at(%d, %r %s) on an array in %s" % (i, v, si.units_string(src, dim), si.units_string(dst, dim))):
+                return out
+            if src == dst and now[i] != v:
+                out.append(("C06:set_at:identity-not-exact", "%r stored as %r" % (v, now[i])))
+                return out
+            if (item.value, uq.sys_of(item.units), uq.dim_of(item.units)) != (v, src, dim):
+                out.append(("C06:set_at:operand-mutated", "set_at changed the UnitValue it was given"))
+            # reading the item back: the same quantity, in the units of the array
+            _check_result("set_at:get_at", item, q.get_at(i), dst, dim, out, case, exact_identity=(src == dst))
+            for j in range(len(base)):
+                if j != i:
+                    g = q.get_at(j)
+                    if type(g) is not UnitValue or g.value != base[j] or uq.dim_of(g.units) != dim or \
+                            any(dim[k] != 0 and uq.sys_of(g.units)[k] != dst[k] for k in range(3)):
+                        out.append(("C06:set_at:get_at:other-item", "get_at(%d) = %s, the array holds %r %s" % (j, g, base[j], si.units_string(dst, dim))))
+                        break
+        elif sub == "set_at_mismatch":
+            src, dst = tuple(case["src"]), tuple(case["dst"])
+            d1, d2 = tuple(case["dim"]), tuple(case["dim2"])
+            q = uq.mk_ua([3.7, -0.125, 41.0], dst, d1)
+            item = uq.mk_uv(7.5, src, d2)
+            try:
+                q.set_at(1, item)
+            except Exception:
+                pass
+            else:
+                out.append(("C06:set_at:mismatch:accepted", "set_at of a UnitValue of dimension %s into an array of dimension %s did not raise (array now %r)"
+                            % (d2, d1, [float(x) for x in q.value])))
         elif sub == "mismatch":
             src, dst = tuple(case["src"]), tuple(case["dst"])
             d1, d2 = tuple(case["dim"]), tuple(case["dim2"])
@@ -336,6 +487,40 @@ def _spaces(tier):
             yield {"sub": "famprod", "text": "%s/%s" % (a, b), "equals": eq}
     sp.append(("family products: molar x litre = amount, amount / litre = molar, litre / area = length (same base unit twice in "
                "one text)", gen_famprod, 9 * 5 + 7 * 2 + 5))
+    dims_c = [(1, 0, 0), (2, -1, 1)]
+
+    def gen_carrier():
+        for a in S36:
+            for b in S36:
+                for dim in dims_c:
+                    for car in CARRIERS:
+                        for route in ROUTES:
+                            yield {"sub": "carrier", "src": a, "dst": b, "dim": dim, "carrier": car, "route": route}
+    sp.append(("carriers: the numbers of an array quantity handed over as list / tuple / ndarray of float64, float32, float16, int64, "
+               "int32, uint8 / list of ints, through the constructor, the value setter and set_value, converted (and back): "
+               "36x36 systems x 2 dimensions x 9 carriers x 3 routes", gen_carrier, 36 * 36 * len(dims_c) * len(CARRIERS) * len(ROUTES)))
+
+    dims_s = cube if tier == "thorough" else [(1, 0, 0), (2, -1, 1), (0, -2, 0), (-3, 0, 1)]
+
+    def gen_setat():
+        for a in S36:
+            for b in S36:
+                for dim in dims_s:
+                    for i in range(3):
+                        for v in range(len(SETAT_VALS)):
+                            yield {"sub": "set_at", "src": a, "dst": b, "dim": dim, "i": i, "v": v}
+    sp.append(("set_at / get_at: implicit conversion of the element setter, UnitValue in each of 36 systems written into an array in "
+               "each of 36 systems x %d dimensions x 3 positions x {float, int} value, read back with get_at" % len(dims_s),
+               gen_setat, 36 * 36 * len(dims_s) * 3 * len(SETAT_VALS)))
+
+    def gen_setat_mis():
+        for d1 in c1:
+            for d2 in c1:
+                if d1 != d2:
+                    for (a, b) in ((si.MIXED[0], si.MIXED[3]), (si.DEFAULT, si.DEFAULT), (si.MIXED[0], si.MIXED[0])):
+                        yield {"sub": "set_at_mismatch", "src": a, "dst": b, "dim": d1, "dim2": d2}
+    sp.append(("set_at mismatch: every ordered pair of different dimensions of {-1,0,1}^3 x {different systems, same default system, "
+               "same non-default system} must raise", gen_setat_mis, 27 * 26 * 3))
     return sp
 
 
@@ -348,9 +533,12 @@ def _work(job):
     acc = core.Acc()
     seen_nt = 0
     for case in itertools.islice(gen(), lo, hi):
-        res = check_case(case)
+        notes = []
+        res = _check(case, notes)
+        for n_ in notes:
+            acc.count(n_)
         acc.add(states=1, transitions=1, traces=1, evaluations=1)
-        nt = case.get("src") != case.get("dst") or case["sub"] in ("compose", "family", "mismatch", "famprod", "history", "items")
+        nt = case.get("src") != case.get("dst") or case["sub"] in ("compose", "family", "mismatch", "famprod", "history", "items", "set_at_mismatch")
         if nt:
             seen_nt += 1
         for key, what in res:
